@@ -1,6 +1,6 @@
 """C08 - module mode: the trait's methods are exactly the module's non-private functions.
 
-State = (module item word over the 30-symbol alphabet, requested trait visibility).
+State = (module item word over the 31-symbol alphabet, requested trait visibility).
 Model = filter(visible fn with a body) in source order - nothing else.
 Impl  = (a) method list of the generated trait in the recorded expansion (proves exactly-these, in order),
         (b) for words that can compile: a client in the parent scope (and, for pub / pub(crate), at crate
@@ -9,7 +9,7 @@ Impl  = (a) method list of the generated trait in the recorded expansion (proves
 from .. import engine, common, gen
 
 ID = "C08"
-VIS = ["", "pub", "pub(crate)"]
+VIS = ["", "pub", "pub(crate)", "pub(in crate::KEY)"]
 
 
 def enumerate_states(tier):
@@ -25,9 +25,24 @@ def enumerate_states(tier):
             if len(w) > 2 and vi != 0:
                 continue
             states.append(dict(key="m%d_%s" % (vi, "_".join(w) or "empty"), items=list(w), vis=vis))
-    transitions += sum(2 for w in words if len(w) <= 2)  # 'change requested visibility' edges
+    transitions += sum(3 for w in words if len(w) <= 2)
+    # module bodies stamped out by macro_rules: fn bodies / types / expressions arrive as invisible groups
+    for k in STAMPED:
+        states.append(dict(key="ms_" + k, items=[], vis="pub", stamped=k))
+        transitions += 1  # 'change requested visibility' edges
     return states, transitions, dict(item_alphabet=len(gen.MOD_ITEM_ORDER), word_len_full_alphabet=full_len,
                                      core_alphabet=len(gen.MOD_ITEM_CORE), word_len_core_alphabet=core_len, vis_on_words_le=2)
+
+
+STAMPED = {
+    # which fragment kinds appear where: (macro pattern, module body, invocation arguments, expected methods, expected call results)
+    "block_body": ("($b:block, $t:ty)", "pub fn a1(deps: &impl ::core::any::Any) -> $t $b\n        pub fn a2(deps: &impl ::core::any::Any) -> $t { 2 }\n        fn p3(deps: &impl ::core::any::Any) -> $t $b\n        pub fn a4(deps: &impl ::core::any::Any) -> $t { 4 }",
+                   "{ 1 }, u32", ["a1", "a2", "a4"], "a1=1,a2=2,a4=4"),
+    "expr_items": ("($e:expr, $t:ty)", "pub const K: $t = $e;\n        pub fn a1(deps: &impl ::core::any::Any) -> $t { $e }\n        pub static S: $t = $e;\n        pub fn a2(deps: &impl ::core::any::Any) -> $t { 2 }",
+                   "1, u32", ["a1", "a2"], "a1=1,a2=2"),
+    "vis_ident": ("($v:vis, $n:ident)", "$v fn $n(deps: &impl ::core::any::Any) -> u32 { 1 }\n        pub fn a2(deps: &impl ::core::any::Any) -> u32 { 2 }",
+                  "pub(crate), a1", ["a1", "a2"], "a1=1,a2=2"),
+}
 
 
 def compilable(s):
@@ -35,11 +50,14 @@ def compilable(s):
 
 
 def model(s):
+    if s.get("stamped"):
+        _, _, _, methods, calls = STAMPED[s["stamped"]]
+        return dict(methods=methods, calls=calls, outer=calls)
     methods = ["a%d" % n for n, sym in enumerate(s["items"], 1) if gen.MOD_ITEMS[sym]["member"]]
     calls = None
     if compilable(s):
         calls = ",".join("a%d=%d" % (n, n) for n, sym in enumerate(s["items"], 1) if gen.MOD_ITEMS[sym]["member"])
-    return dict(methods=methods, calls=calls, outer=calls if (s["vis"] and calls is not None) else None)
+    return dict(methods=methods, calls=calls, outer=calls if (s["vis"] in ("pub", "pub(crate)") and calls is not None) else None)
 
 
 def call_expr(sym, n, recv="app"):
@@ -54,10 +72,29 @@ def call_expr(sym, n, recv="app"):
     return 'got.push(format!("a%d={}", %s));' % (n, e)
 
 
+def render_stamped(s):
+    key = s["key"]
+    pat, body, args, methods, calls = STAMPED[s["stamped"]]
+    L = ["mod %s {" % key, "    use super::rt;", "    macro_rules! mk { %s => {" % pat, "    #[::entrait::entrait(pub Tr)]", "    pub mod m {",
+         "        " + body, "    }", "    } }", "    mk!(%s);" % args]
+    for name, head in (("client", "    #[deny(unused_unsafe)] pub fn client() {"),):
+        L.append(head)
+        L.append("        let app = ::entrait::Impl::new(());")
+        L.append("        let mut got: Vec<String> = Vec::new();")
+        for mname in methods:
+            L.append('        got.push(format!("%s={}", app.%s()));' % (mname, mname))
+        L.append('        rt::out("calls", got.join(",")); rt::out("outer", got.join(","));')
+        L.append("    }")
+    L.append("}")
+    return engine.Unit(key, "\n".join(L), 'rt::run("%s", %s::client);' % (key, key), s)
+
+
 def render(s):
+    if s.get("stamped"):
+        return render_stamped(s)
     key = s["key"]
     L = ["mod %s {" % key, "    use super::rt;"]
-    L.append("    #[::entrait::entrait(%s)]" % (s["vis"] + " Tr").strip())
+    L.append("    #[::entrait::entrait(%s)]" % (s["vis"].replace("KEY", key) + " Tr").strip())
     L.append("    pub mod m {")
     for n, sym in enumerate(s["items"], 1):
         L.append("    " + gen.mod_item_src(sym, n, key))
@@ -71,12 +108,12 @@ def render(s):
             if gen.MOD_ITEMS[sym]["member"]:
                 L.append("        " + call_expr(sym, n))
         L.append('        rt::out("calls", got.join(","));')
-        if s["vis"]:
+        if s["vis"] in ("pub", "pub(crate)"):
             L.append('        rt::out("outer", crate::outer_%s());' % key)
         L.append("    }")
         call = 'rt::run("%s", %s::client);' % (key, key)
     L.append("}")
-    if compilable(s) and s["vis"]:
+    if compilable(s) and s["vis"] in ("pub", "pub(crate)"):
         L.append("#[deny(unused_unsafe)] fn outer_%s() -> String {" % key)
         L.append("    use crate::%s::Tr as Renamed;" % key)
         L.append("    let app = ::entrait::Impl::new(());")
@@ -90,7 +127,7 @@ def render(s):
 
 
 def tags_of(s):
-    return {"item:" + x for x in s["items"]} | {"vis:" + (s["vis"] or "none")}
+    return {"item:" + x for x in s["items"]} | {"vis:" + (s["vis"] or "none")} | ({"stamped:" + s["stamped"]} if s.get("stamped") else set())
 
 
 def evaluate(states, report, tier):
@@ -149,7 +186,7 @@ def evaluate(states, report, tier):
                         missing = [x for x in m["methods"] if x not in observed["methods"]]
                         sig = "methods:" + ("extra" if extra else "missing" if missing else "order")
                         problems.append((sig, "trait methods %s, model says %s" % (observed["methods"], m["methods"])))
-                want_use = (s["vis"], "m :: Tr")
+                want_use = (s["vis"].replace("KEY", s["key"]).replace(" ", ""), "m :: Tr")
                 if reexports != [want_use]:
                     problems.append(("re-export", "%s, model says %s" % (reexports, [want_use])))
         if compilable(s):
